@@ -1,41 +1,75 @@
 PROPS["C13"] = dict(
     harnesses=[dict(name="C13", procs_quick=4, procs_thorough=16, timeout=3400,
                     env={"ASAN_OPTIONS": "detect_leaks=0:abort_on_error=0:allocator_may_return_null=1"})],
-    gens=["gen_nnconst", "gen_math", "gen_utm", "gen_gridcodes"],
-    rule=("table-driven sweep, complete in both tiers: every entry point of the table (229 public numeric members / statics of Geodesic, GeodesicExact, "
+    gens=["gen_nnconst", "gen_math", "gen_utm", "gen_gridcodes", "gen_apic13"],
+    rule=("table-driven sweep, complete in both tiers: every entry point of the table (394 rows; the table is checked against the inventory of the public "
+          "API extracted from the headers: every public function with a floating-point / string / vector / stream input is swept, driven by a parser / file / "
+          "vector-size stream, has a constructor-domain predicate, forwards to an overload that is, or is excluded with a reason; the harness's own entry list must "
+          "equal the Lean table, arities included); members / statics of Geodesic, GeodesicExact, "
           "GeodesicLine(Exact) in three solver configurations, Rhumb(Line) series and exact, TransverseMercator(Exact) x4, PolarStereographic, "
           "LambertConformalConic, AlbersEqualArea (northern, southern, cylindrical), Geocentric, LocalCartesian, UTMUPS, MGRS, Geohash, GARS, Georef, "
           "OSGB, AzimuthalEquidistant, Gnomonic, CassiniSoldner, Ellipsoid, AuxLatitude (all 36 conversions), EllipticFunction, PolygonArea x3, "
           "Intersect, DMS, Utility, GeoCoords, Math, Accumulator, NormalGravity, SphericalHarmonic/1/2, CircularEngine, Geoid, MagneticModel, "
           "GravityModel, Magnetic/GravityCircle on synthetic data files) x every argument position x {NaN, ±inf, ±0, ±denormal, min normal, ±1e308, "
           "DBL_MAX, ±90, ±180, ±360, 540, ±1e17, 2^53, ±91, 90-ulp, 1e-300, ±1, 2^32, 2^31, -2^31-1} + random binades; outputs pre-filled with "
-          "sentinels (ints, bools, strings mapped); constructors: valid tuple, one parameter bad at a time, random tuples, conic poles in all three "
-          "constructor forms; NearestNeighbor: Node::Check on crafted records (every field at / one beyond each bound), Load on genuine trees with "
+          "sentinels (ints, bools, strings mapped), every output also compared bit for bit with the NaN-free baseline call; GeoCoords through all three ways of "
+          "setting it (constructor, Reset, string) x {UTM north, UTM south, UPS north, UPS south, lat/lon} with every accessor as an output; Math in float, double and "
+          "long double; constructors (40 classes / forms covering every public constructor of the inventory that has a parameter; the harness list must equal ErrContract.ctorTable): valid tuple, every degenerate / limit value (0, -0, +-denormal, "
+          "DBL_MIN, 1e+-300, +-1e308, DBL_MAX, f = 1, f = 1 +- ulp, f = 2, NaN, +-inf, poles +- ulp) at every parameter position, one parameter bad at a time, "
+          "random tuples, conic poles in all three constructor forms; the maxdist argument of Intersect::All (validated since fix fb4697b: +inf and >= 1e13 m must throw, "
+          "NaN / negative / <= 1e8 m must not); SphericalEngine::coeff / SphericalHarmonic / 1 / 2 constructors: every layout (N, nmx, mmx) up to "
+          "degree 4 (7 thorough) x vector sizes {exact, C one short, S one short, one long, C empty, S empty, two short, long C + short S, short C + long S}, "
+          "N / nmx / mmx at and beyond their limits (-2, -1, N < nmx, nmx < mmx, the degree bound 46339 / 46340 / 46341, 65536, INT_MAX, INT_MIN), two- and three-set forms with one set short "
+          "or N1 > N / nmx1 > nmx / mmx1 > mmx; every accepted object is evaluated (value, gradient, circle) under ASan, ops with too-short vectors in a forked child; NearestNeighbor: Node::Check on crafted records (every field at / one beyond each bound), Load on genuine trees with "
           "one mutated field (text and binary) followed by Search, byte-level corruption; encoders with NaN/inf/out-of-range positions, decoders and "
           "all text parsers (DMS, GeoCoords, Utility::val/fract/date/fractionalyear/ParseLine…) on seeds and 1–3 character mutations incl. NUL / "
           "high-bit / many colons / long digit strings; integer arguments over {INT_MIN … INT_MAX}; truncated / corrupted Geoid, MagneticModel and "
           "GravityModel files incl. huge degree words. non-trivial = call returned without exception; distinct = distinct (op, leading argument bits)"),
     tolerances={"which outputs are NaN for a NaN argument": "exact (dependence table, decided in Lean)",
+                "outputs that do not depend on the NaN argument ('=' cells)": "bit-identical to the baseline call",
                 "exception or not / exception type / outputs untouched on throw": "exact",
+                "vector-size / index domain of the harmonic constructors": "exact (integer predicate evaluated in Lean)",
+                "NormalGravity(J2 form) and Intersect constructors, Intersect::All maxdist": "two-sided bound (must reject / must accept), nothing required in between",
                 "constructor accept / reject": "exact (binary64 predicates evaluated in Lean's softfloat)",
                 "Node::Check / Load accept-reject, INVALID markers, decoder accept-reject": "exact",
                 "hang": "1 s CPU time per swept call, 3 s per constructor (+ first use), 30–120 s wall for file / search ops"},
     level_text=("Theorems: the decision procedures the driver runs are sound for the contract (a call accepted by checkNaN raised no exception — or the "
                 "documented GeographicErr with nothing written — and is NaN on exactly the outputs the dependence table marks as dependent and valid on "
                 "those marked independent; an accepted throwing call left every output untouched and threw only the library's exception or bad_alloc); "
-                "the 229-row dependence table is well-formed; the Except-returning models of UTMUPS::Forward, MGRS::Forward/Reverse, Geohash, GARS, Georef, "
+                "the 394-row dependence table is well-formed, its keys distinct; api_covered (Gen, re-checked against the clang AST of the public headers on every "
+                "run): every public constructor / member / static function that takes a floating-point number, a string, a vector or a stream is covered by a table row, a "
+                "constructor-domain predicate, a parser / file-reader stream or a vector-size domain, forwards the same inputs to a covered overload, or is excluded with a "
+                "reason, no cover is stale, and the arities of the rows fit the extracted signatures (cover_arities; checkCoverage_sound proves for arbitrary lists what "
+                "the one-pass check means); ctor_all_have_domain (Gen): every public constructor has a domain predicate executed against the implementation; the vector-size "
+                "predicate of the harmonic constructors accepts exactly the documented needs and rejects a vector one element short (sh_sizes_exact, sh_one_short_rejected, "
+                "sh_needs_are_header_sizes up to degree 16), refuses N > 46339 and N < -1 (sh_degree_domain) and keeps the code's 32-bit index arithmetic in range for every "
+                "admitted degree (sh_index_fits_int); outputs marked independent of the NaN argument equal the baseline call bit for bit (nan_contract_sound); the Except-returning models of UTMUPS::Forward, MGRS::Forward/Reverse, Geohash, GARS, Georef, "
                 "OSGB return the documented INVALID marker for a NaN position and NaN for an INVALID string, and an error leaves the caller's sentinels "
                 "(structural); constructor predicates accept exactly the documented domains and the three Lambert / three Albers constructor forms agree "
                 "where their parameters coincide; NaN propagates through the binary64 primitives while C fmin/fmax provably discard it; a node accepted by "
                 "the model of NearestNeighbor::Node::Check has every index in bounds and a file accepted by the model of Load has every child strictly "
                 "before its parent (so Search terminates). The tables and predicates are tied to the code by executing them against the implementation "
                 "(ASan+UBSan build) on every sampled call: exception-or-not, which outputs were written, which are NaN, accept/reject. Partial by nature: "
-                "absence of undefined behaviour, crashes and hangs in the C++ is only established for the inputs run; the dependence table is hand-written "
-                "from the documentation and formulas (validated by the run), not derived from the source."),
-    level_note=("NearestNeighbor version / maxbucket regenerated from the header each run; UTM/MGRS/grid-code constants through the imported models; hand-written "
+                "absence of undefined behaviour, crashes and hangs in the C++ is only established for the inputs run; the dependence table and the coverage list are "
+                "hand-written from the documentation and formulas (validated by the run); what is derived from the source is the inventory they are checked against. The "
+                "coverage obligations compare numeric codes of the keys; that every code is the code of its label is a theorem for the table and is executed natively on every "
+                "run for the coverage list and the generated inventory (op c13_selfcheck). NormalGravity(a, GM, omega, J2) and Intersect(geod) have solver-defined domains: "
+                "only a two-sided bound is modelled."),
+    level_note=("OBSERVATION (not a C13 violation; NormalGravity values belong to C19): NormalGravity::J2ToFlattening(a, GM, omega, J2) returns wrong flattenings for "
+                "J2 <= -1e16 (finite argument inside the documented domain J2 < J0, no NaN argument, no undefined behaviour, hence no clause of C13 is broken): ep2 saturates "
+                "at -(1 - eps) once e2 < -1/eps, the termination test `ep2 == ep2a` then stops the Newton iteration after two steps (round trip FlatteningToJ2(J2ToFlattening(J2)) "
+                "off by a factor 823 at J2 = -1e16, 1e19 at -1e50; exact down to -1e15), and for J2 <~ -1e250 the step overflows to +inf and is clamped to 1 - eps, so "
+                "J2ToFlattening(WGS84 a, GM, omega, -1e300) = 0.99999998509883881 and NormalGravity(a, GM, omega, -1e300, false) is accepted with b = 0.095 m; the NaN-preserving "
+                "clamps of corpus/C13/candidate-J2ToFlattening-nan-preserving.patch (ctest 194/194) only turn J2 = -1.7e308 into NaN. The C13 constructor model for this form is a "
+                "two-sided bound that requires acceptance only for -1e10 <= J2 <= 0.3. "
+                "public-API inventory (786 functions, 61 constructors) regenerated from the clang-14 JSON AST of include/GeographicLib/*.hpp each run (Gen/ApiC13.lean); "
+                "NearestNeighbor version / maxbucket regenerated from the header each run; UTM/MGRS/grid-code constants through the imported models; hand-written "
                 "dependence table and constructor predicates; hangs are detected by a CPU-time watchdog, sanitizer aborts of *known open* findings are confined to "
                 "forked children so that the rest of the sweep still runs"),
     technique="Lean 4 proofs about the contract tables / Except models / Node::Check model + exact table-driven correspondence under ASan+UBSan",
-    assumptions=["reading an uninitialised header word in NearestNeighbor::Load (binary, truncated stream) is not detectable by ASan/UBSan and is not covered",
-                 "huge but legal sizes in file headers (allocation failures) are not exercised"],
+    assumptions=["the parameter-kind codes of the inventory are assigned by tools/translate.d/C13.py from the clang type strings (trusted extraction; the run cross-checks "
+                 "the arities of every swept entry against the Lean table)",
+                 "reading an uninitialised header word in NearestNeighbor::Load (binary, truncated stream) is not detectable by ASan/UBSan and is not covered",
+                 "huge but legal sizes in file headers and in DST(N) (allocation failures) are not exercised; Intersect::All with a legal maxdist between 2e8 m and its "
+                 "limit (~9.3e11 m) is not run (cost grows with maxdist^2)"],
 )
